@@ -1,5 +1,6 @@
 import Lemmas.Gen.Value
 import Lemmas.Gen.Incremental
+import Lemmas.Gen.Loads
 import Spec.Gen
 /-!
 # C17 — a generated revision file reloads as the revision that was requested
@@ -90,15 +91,9 @@ def acceptedB (m : LMap) (r : Rev) : Bool :=
 
 def Accepted (m : LMap) (r : Rev) : Prop := acceptedB m r = true
 
-/-- **C17.incremental: the in-memory map after `add_revision` IS the reloaded map** - the full
-    view, branch labels included (true since the fix of F5 in `add_revision`).
-    For EVERY history `h` that loads and every revision `r` accepted by `generate_revision`
-    (new id, dependencies that resolve in the map; nothing is assumed about heads/splice, labels
-    or the shape of the graph) such that the extended history loads: `add_revision` succeeds and
-    `view (addRevision (load h) r) = view (load (h ++ [r]))` - ids in map order, down revisions,
-    resolved and normalised dependencies, branch labels per revision, children (`nextrev`,
-    `_all_nextrev`), branch-label keys, heads, real heads, bases, real bases. -/
-theorem incremental (h : Hist) (r : Rev) (m mf : LMap) (hl : load h = .ok m)
+/-- the same conclusion for histories that need not be well formed, given that the extended
+    history loads: `add_revision` succeeds and the views coincide -/
+theorem incremental_given_reload (h : Hist) (r : Rev) (m mf : LMap) (hl : load h = .ok m)
     (hf : load (h ++ [r]) = .ok mf) (ha : Accepted m r) :
     ∃ m', addRevision m r = .ok m' ∧ view m' = view mf := by
   unfold Accepted acceptedB at ha
@@ -106,6 +101,32 @@ theorem incremental (h : Hist) (r : Rev) (m mf : LMap) (hl : load h = .ok m)
   obtain ⟨⟨⟨⟨⟨hid, _⟩, _⟩, hdeps⟩, _⟩, _⟩ := ha
   obtain ⟨h1, h2⟩ := Lemmas.Gen.incremental_view h r m mf hl hf hid hdeps
   exact ⟨_, h1, h2⟩
+
+/-- **C17.incremental: the in-memory map after `add_revision` IS the reloaded map** - the full
+    view, branch labels included (true since the fix of F5 in `add_revision`).
+    For EVERY well-formed history `h` (unique ids, every down revision present) that loads and
+    EVERY revision `r` accepted by `generate_revision` (new id, no self reference, down revisions
+    in the map, dependencies that resolve in the map, new distinct labels; nothing is assumed
+    about heads/splice or the shape of the graph):
+    `add_revision` succeeds, the extended history loads (cycle detection accepts it), and
+    `view (addRevision (load h) r) = view (load (h ++ [r]))` - ids in map order, down revisions,
+    resolved and normalised dependencies, branch labels per revision, children (`nextrev`,
+    `_all_nextrev`), branch-label keys, heads, real heads, bases, real bases. -/
+theorem incremental (h : Hist) (r : Rev) (m : LMap) (hl : load h = .ok m)
+    (hu : (h.map (·.id)).Nodup) (hd : ∀ r0 ∈ h, ∀ d ∈ r0.down, d ∈ h.map (·.id)) (ha : Accepted m r) :
+    ∃ m' mf, addRevision m r = .ok m' ∧ load (h ++ [r]) = .ok mf ∧ view m' = view mf := by
+  have ha' := ha
+  unfold Accepted acceptedB at ha'
+  simp only [Bool.and_eq_true, Bool.not_eq_true', List.all_eq_true, decide_eq_true_eq, bne_iff_ne, ne_eq] at ha'
+  obtain ⟨⟨⟨⟨⟨hid, hcr⟩, hdown⟩, hdeps⟩, hlab⟩, hnd⟩ := ha'
+  have hcr' : checkRev r = .ok () := by
+    cases hc : checkRev r with
+    | ok u => cases u; rfl
+    | error e => rw [hc] at hcr; simp at hcr
+  obtain ⟨mf, hf⟩ := Lemmas.Gen.loads_ext h r m hl hu hd hid hcr' hdown hdeps
+    (fun l hl' => by have := hlab l hl'; exact ⟨this.1, this.2⟩) (by simpa using hnd)
+  obtain ⟨m', h1, h2⟩ := incremental_given_reload h r m mf hl hf ha
+  exact ⟨m', mf, h1, hf, h2⟩
 
 /-- decidable form, for concrete histories -/
 def incrementalOkB (h : Hist) (r : Rev) : Bool :=
